@@ -51,7 +51,8 @@ class Triangle(Domain):
         _, _, _, dir_1, _, dir_3 = self._construct_triangle(params, device=device)
         # volume equals the determinate of the matrix [dir_1, dir_2] / 2
         volume = -dir_1[:, :1] * dir_3[:, 1:] + dir_1[:, 1:] * dir_3[:, :1]
-        return volume / 2.0
+        # the determinant is negative if the corners are ordered clockwise
+        return torch.abs(volume) / 2.0
 
     def _construct_triangle(self, params=Points.empty(), device="cpu"):
         origin = self.origin(params, device).reshape(-1, 2)
